@@ -1754,6 +1754,89 @@ class Normalizer:
         self.lowered = []
         self._closures = {}
         self._index()
+        self._inline_decorators()
+
+    # -- decorators / context managers -------------------------------------------
+    def _inline_decorators(self):
+        """N47: a function decorated with a module-level pass-through wrapper,
+
+            def deco(f):                              @deco
+                @functools.wraps(f)                   def g(self, x): BODY
+                def w(self, x):
+                    try: return f(self, x)       ->   def g(self, x):
+                    except Exception: return False        try: BODY
+                return w                                  except Exception: return False
+
+        (w's parameters are handed to f unchanged and in order, f is called once, as `return f(..)`; nothing else in deco): the wrapper's body
+        with BODY in the place of that return.  N48: `with C():` over a class of the module whose __enter__ only returns self / nothing and whose
+        __exit__ ignores its arguments and does not return a true value is `try: .. finally: <the body of __exit__>`."""
+        for modname, mod in self.modules.items():
+            decos = {}
+            for fd in mod.tree.body:
+                if isinstance(fd, ast.FunctionDef) and len(fd.args.args) == 1 and not fd.decorator_list and len(fd.body) == 2 \
+                        and isinstance(fd.body[0], ast.FunctionDef) and isinstance(fd.body[1], ast.Return) and isinstance(fd.body[1].value, ast.Name) \
+                        and fd.body[1].value.id == fd.body[0].name:
+                    w, fpar = fd.body[0], fd.args.args[0].arg
+                    if any(not (isinstance(d, ast.Call) and ast.unparse(d.func) in ("functools.wraps", "wraps")) for d in w.decorator_list):
+                        continue
+                    wa = w.args
+                    if wa.vararg or wa.kwarg or wa.kwonlyargs or wa.defaults or wa.posonlyargs:
+                        continue
+                    wp = [a.arg for a in wa.args]
+                    calls = [n for n in ast.walk(w) if isinstance(n, ast.Call) and isinstance(n.func, ast.Name) and n.func.id == fpar]
+                    uses = [n for n in ast.walk(w) if isinstance(n, ast.Name) and n.id == fpar]
+                    if len(calls) != 1 or len(uses) != (1 + len(w.decorator_list)):
+                        continue
+                    c = calls[0]
+                    if c.keywords or [ast.unparse(a) for a in c.args] != wp:
+                        continue
+                    rets = [n for n in ast.walk(w) if isinstance(n, ast.Return) and n.value is c]
+                    if len(rets) != 1:
+                        continue
+                    decos[fd.name] = (w, wp, rets[0])
+            if not decos:
+                continue
+
+            def apply(fdef):
+                if len(fdef.decorator_list) != 1 or not isinstance(fdef.decorator_list[0], ast.Name) or fdef.decorator_list[0].id not in decos:
+                    return
+                w, wp, ret = decos[fdef.decorator_list[0].id]
+                fa = fdef.args
+                if fa.vararg or fa.kwarg or fa.kwonlyargs or fa.defaults or fa.posonlyargs or len(fa.args) != len(wp):
+                    return
+                fp = [a.arg for a in fa.args]
+                loc = _local_names(fdef)
+                wloc = _local_names(w) - set(wp)
+                if wloc & (loc | set(fp)):
+                    return
+                w2 = copy.deepcopy(w)
+                ret2 = [n for n in ast.walk(w2) if isinstance(n, ast.Return) and ast.dump(n) == ast.dump(ret)]
+                if len(ret2) != 1:
+                    return
+                w2 = _Rename(dict(zip(wp, fp))).visit(w2) if wp != fp else w2
+                body = fdef.body
+
+                def put(ss):
+                    for i, s_ in enumerate(ss):
+                        if s_ is ret2[0]:
+                            ss[i:i + 1] = body
+                            return True
+                        for owner, f in _child_lists(s_):
+                            if put(getattr(owner, f)):
+                                return True
+                    return False
+                if not put(w2.body):
+                    return
+                fdef.body = w2.body
+                fdef.decorator_list = []
+                self.lowered.append((f"{modname}:{fdef.name}", getattr(fdef, "lineno", 0), "decorator"))
+            for st in mod.tree.body:
+                if isinstance(st, ast.FunctionDef):
+                    apply(st)
+                elif isinstance(st, ast.ClassDef):
+                    for m in st.body:
+                        if isinstance(m, ast.FunctionDef):
+                            apply(m)
 
     # -- index ------------------------------------------------------------------
     def _index(self):
@@ -2189,6 +2272,30 @@ class Normalizer:
                     return rec(un)
                 return un
             return self._hoist(st, "iter", modname, cname, stack, state)
+        if isinstance(st, ast.With) and len(st.items) == 1 and st.items[0].optional_vars is None and isinstance(st.items[0].context_expr, ast.Call) \
+                and isinstance(st.items[0].context_expr.func, ast.Name) and not st.items[0].context_expr.args and not st.items[0].context_expr.keywords:
+            # N48: `with C():` over a class of this module without state: __enter__ returns self / nothing, __exit__ ignores its arguments and the
+            # instance and never returns a true value  ->  try: BODY finally: <body of __exit__>
+            cdef = self.classes.get((modname, st.items[0].context_expr.func.id))
+            ms = self._methods(cdef) if cdef is not None else {}
+            en, ex = ms.get("__enter__"), ms.get("__exit__")
+            if en is not None and ex is not None and "__init__" not in ms and not cdef.bases and len(ex.args.args) == 4 and len(en.args.args) == 1 \
+                    and not en.decorator_list and not ex.decorator_list:
+                ok_en = all(isinstance(b, ast.Pass) or (isinstance(b, ast.Return) and (b.value is None or (isinstance(b.value, ast.Name) and b.value.id == en.args.args[0].arg)
+                                                                                        or (isinstance(b.value, ast.Constant) and b.value.value is None)))
+                            or (isinstance(b, ast.Expr) and isinstance(b.value, ast.Constant)) for b in en.body)
+                pars = {a.arg for a in ex.args.args}
+                ok_ex = not any(isinstance(n, ast.Name) and n.id in pars for b in ex.body for n in ast.walk(b)) \
+                    and not any(isinstance(n, ast.Return) and n.value is not None and not (isinstance(n.value, ast.Constant) and not n.value.value) for b in ex.body for n in ast.walk(b)) \
+                    and not any(isinstance(n, (ast.Yield, ast.YieldFrom, ast.Await, ast.FunctionDef, ast.Lambda)) for b in ex.body for n in ast.walk(b))
+                if ok_en and ok_ex:
+                    fin = [b for b in copy.deepcopy(ex.body) if not (isinstance(b, ast.Return) or (isinstance(b, ast.Expr) and isinstance(b.value, ast.Constant)))] \
+                        or [ast.copy_location(ast.Pass(), st)]
+                    if not any(isinstance(n, ast.Return) for b in fin for n in ast.walk(b)):
+                        new = ast.copy_location(ast.Try(body=st.body, handlers=[], orelse=[], finalbody=fin), st)
+                        ast.fix_missing_locations(new)
+                        self.lowered.append((state["caller"], getattr(st, "lineno", 0), "context-manager"))
+                        return self._stmt(new, modname, cname, stack, state)
         if isinstance(st, ast.With) and len(st.items) == 1 and st.items[0].optional_vars is None and self._is_suppress(st.items[0].context_expr, modname):
             # N10: with contextlib.suppress(A, B): BODY  ->  try: BODY except (A, B): pass
             c = st.items[0].context_expr
